@@ -307,19 +307,22 @@ def observable(vals, theta):
     return 0.5 * (v0 + v1) * _I2 + 0.5 * (v0 - v1) * (math.cos(theta) * _Z + math.sin(theta) * _X)
 
 
+def kron2(P, Q):
+    """Kronecker product of two 2x2 matrices, written out."""
+    out = np.empty((4, 4))
+    out[:2, :2] = P[0, 0] * Q
+    out[:2, 2:] = P[0, 1] * Q
+    out[2:, :2] = P[1, 0] * Q
+    out[2:, 2:] = P[1, 1] * Q
+    return out
+
+
 def bell_operator(J, ac, bc, A, B):
-    """sum J_xy A_x (x) B_y + sum a_x A_x (x) 1 + sum b_y 1 (x) B_y for explicit 2x2 observables."""
-    op = np.zeros((4, 4))
+    """sum J_xy A_x (x) B_y + sum a_x A_x (x) 1 + sum b_y 1 (x) B_y for explicit 2x2 observables
+    (grouped as sum_x A_x (x) (sum_y J_xy B_y + a_x 1) + 1 (x) sum_y b_y B_y)."""
+    op = kron2(_I2, bc[0] * B[0] + bc[1] * B[1])
     for x in range(2):
-        for y in range(2):
-            if J[x][y]:
-                op += J[x][y] * np.kron(A[x], B[y])
-    for x in range(2):
-        if ac[x]:
-            op += ac[x] * np.kron(A[x], _I2)
-    for y in range(2):
-        if bc[y]:
-            op += bc[y] * np.kron(_I2, B[y])
+        op += kron2(A[x], J[x][0] * B[0] + J[x][1] * B[1] + ac[x] * _I2)
     return op
 
 
@@ -353,15 +356,16 @@ def _grid_lam(J, ac, bc, av, bv, n):
     return th, np.linalg.eigvalsh(op)[..., -1]
 
 
-def _refine(fn, ta, tb, step):
+def _refine(fn, ta, tb, step, diagonal=True):
     """Deterministic coordinate pattern search (step halving) from (ta, tb)."""
     best = fn(ta, tb)
+    moves = ((1, 0), (-1, 0), (0, 1), (0, -1), (1, 1), (1, -1), (-1, 1), (-1, -1)) if diagonal else ((1, 0), (-1, 0))
     while step > 1e-7:
         moved = False
-        for da, db in ((step, 0), (-step, 0), (0, step), (0, -step), (step, step), (step, -step), (-step, step), (-step, -step)):
-            val = fn(ta + da, tb + db)
+        for da, db in moves:
+            val = fn(ta + da * step, tb + db * step)
             if val > best + 1e-15:
-                best, ta, tb, moved = val, ta + da, tb + db, True
+                best, ta, tb, moved = val, ta + da * step, tb + db * step, True
         if not moved:
             step /= 2
     return best, ta, tb
@@ -413,21 +417,20 @@ def degenerate_max(J, ac, bc, av, bv):
             if ka != "dd" and kb != "dd":
                 best = max(best, build(0.0, 0.0))
             else:
-                grid = [k * (2 * math.pi / 64) for k in range(64)]
+                grid = [k * (2 * math.pi / 32) for k in range(32)]
                 vals = [(build(t, t), t) for t in grid]
-                vals.sort(key=lambda p: -p[0])
-                for v0, t in vals[:3]:
-                    r, _, _ = _refine(build, t, t, math.pi / 64)
-                    best = max(best, r)
+                v0, t = max(vals, key=lambda p: p[0])
+                r, _, _ = _refine(lambda ta, tb: build(ta, ta), t, t, math.pi / 32, diagonal=False)
+                best = max(best, r)
     return best
 
 
-def jordan_max(J, ac, bc, av, bv, grid=96, keep=6):
+def jordan_max(J, ac, bc, av, bv, grid=96, keep=8):
     """Quantum maximum of a (2 settings, 2 outcomes) Bell expression.  Jordan's lemma: two projectors block-diagonalise
     simultaneously into blocks of size <= 2, so the optimum is attained on two qubits with real rank-one projective
     measurements in the Z-X plane (1x1 blocks = deterministic behaviour of that party, embedded as A_1 = +-A_0); local
     rotations fix theta_A0 = theta_B0 = 0.  lambda_max of the 4x4 Bell operator is maximised over (theta_A1, theta_B1) on a
-    ``grid`` x ``grid`` lattice, the ``keep`` best lattice points are refined by a deterministic pattern search.
+    ``grid`` x ``grid`` lattice, the ``keep`` best local maxima of the lattice are refined by a deterministic pattern search.
     Every value returned is *attained* by an explicit strategy, hence a lower bound on the true quantum maximum.
     Returns dict(value, rank1, degenerate, deterministic, angles)."""
     J = [[float(J[x][y]) for y in range(2)] for x in range(2)]
@@ -436,7 +439,14 @@ def jordan_max(J, ac, bc, av, bv, grid=96, keep=6):
     av = [float(t) for t in av]
     bv = [float(t) for t in bv]
     th, lam = _grid_lam(J, ac, bc, av, bv, grid)
-    flat = np.argsort(-lam, axis=None, kind="stable")[:keep]
+    # lattice points that are local maxima of the (periodic) lattice, best first
+    peak = np.ones_like(lam, dtype=bool)
+    for di in (-1, 0, 1):
+        for dj in (-1, 0, 1):
+            if di or dj:
+                peak &= lam >= np.roll(np.roll(lam, di, axis=0), dj, axis=1) - 1e-12
+    score = np.where(peak, lam, -np.inf)
+    flat = [int(i) for i in np.argsort(-score, axis=None, kind="stable")[:keep] if np.isfinite(score.flat[int(i)])]
     best = (-math.inf, 0.0, 0.0)
 
     def fn(ta, tb):
